@@ -5,11 +5,26 @@ package metrics
 // calling the real getMetaEntry / Wal.Write / flushSingleTagsTree), plus read-only views of the WAL state.
 
 import (
+	"path/filepath"
+	"time"
+
 	"github.com/siglens/siglens/pkg/segment/structs"
+	"github.com/siglens/siglens/pkg/segment/writer/metrics/wal"
 )
+
+// The meta-entry log has ONE writer in the engine (the timeBasedMetaEntryWalFlush goroutine) and therefore no lock.  A harness
+// process that drives the rewrite itself must not become a second writer of the same Wal object / the same temporary file
+// when it lives longer than the timer's first second (machine load): the first call takes the log away from the real timer
+// (which skips its tick while metricsMEntryWalState.wal is nil) and keeps it here.  Processes that never call this function
+// (history "realtimers") keep the real timer.
+var verifMEntryWal *wal.Wal
 
 // one iteration of timeBasedMetaEntryWalFlush (the loop's slice is re-created per call; the loop reuses it)
 func VerifMetaEntryWalFlushOnce() (n int, wrote bool, err error) {
+	if metricsMEntryWalState.wal != nil {
+		verifMEntryWal = metricsMEntryWalState.wal
+		metricsMEntryWalState.wal = nil
+	}
 	allMetaEntries := make([]*structs.MetricsMeta, 0)
 	for _, ms := range GetAllMetricsSegments() {
 		ms.mNameWalState.lock.Lock()
@@ -18,11 +33,39 @@ func VerifMetaEntryWalFlushOnce() (n int, wrote bool, err error) {
 		allMetaEntries = append(allMetaEntries, metaEntry)
 		ms.mNameWalState.lock.Unlock()
 	}
-	if metricsMEntryWalState.wal != nil {
-		err = metricsMEntryWalState.wal.Write(allMetaEntries)
+	if verifMEntryWal != nil {
 		wrote = true
+		// (should the take-over above have coincided with a tick of the real timer that was already inside Write, the file may
+		// hold a mix of both writers: the result is read back and the rewrite repeated - by then this is the only writer)
+		for attempt := 0; attempt < 4; attempt++ {
+			err = verifMEntryWal.Write(allMetaEntries)
+			if err == nil && verifMetaLogHolds(len(allMetaEntries)) {
+				break
+			}
+			time.Sleep(10 * time.Millisecond)
+		}
 	}
 	return len(allMetaEntries), wrote, err
+}
+
+func verifMetaLogHolds(n int) bool {
+	it, err := wal.NewMetricsMetaEntryWalReader(filepath.Join(getWALBaseDir(), META_ENTRY_WAL_DIR, METRICS_META_ENTRY_WAL_FILE))
+	if err != nil {
+		return false
+	}
+	defer it.Close()
+	got := 0
+	for {
+		e, err := it.Next()
+		if err != nil {
+			return false
+		}
+		if e == nil {
+			break
+		}
+		got++
+	}
+	return got == n
 }
 
 // one iteration of timeBasedTagsTreeFlush
